@@ -10,6 +10,25 @@ package libp2p
 //@   modifies c.counter
 //@   ensures [fresh-sequence-number] result == old(c.counter) + 1 && c.counter == result
 
+// A message gets its sequence number once, in Send, before the retransmit
+// function is built; publish - which is also what every retransmission tick
+// runs - leaves the channel's counter and the message's number alone (frame
+// checked), so all retransmissions carry the number of the first transmission.
+//@ func channel.publish
+//@   property C16
+//@   ensures [publishing-does-not-renumber-the-message] c.counter == old(c.counter) && message.SequenceNumber == old(message.SequenceNumber)
+//@ func channel.messageProto
+//@   property C16
+//@   opt noframe 1
+//@   ensures err == nil ==> result0 != nil
+//@ func channel.Send
+//@   property C16
+//@   opt noframe 1
+//@   requires [sequence-numbers-do-not-wrap] c.counter < 18446744073709551615
+//@   assert call:ScheduleRetransmissions : [the-message-is-numbered-once-before-retransmissions-are-scheduled] messageProto.SequenceNumber == c.counter && c.counter == old(c.counter) + 1
+//@   lit 1
+//@     opt noframe 1
+
 // The receive goroutine calls the handler only right after observing the
 // handler's context live.
 //@ ghost handled int
